@@ -272,6 +272,8 @@ fn g_lexedge(_rng: &mut Rng, _n: usize) -> Vec<Case> {
     let names = [
         "\u{e9}:a", "p:\u{e9}:a", "\u{e9}:\u{e9}", "a\u{e9}:b", "a:\u{e9}b", "\u{4e2d}:\u{6587}", "XML:a", "Xml:a", "xmL:a", "xml:a", "XMLNS:a",
         "Xmlns:a", ":a", ":\u{e9}t\u{e9}", "a:", "::a", "a::b", "a:b:c", "\u{e9}", "a.b-c_d", "_a", "-a", ".a", "1a", "a\u{b7}", "\u{b7}a",
+        // reserved words as LOCAL parts (legal), and prefixes that only look reserved
+        "p:xmlns", "xml:xmlns", "a:xmlns", "p:xml", "p:XMLNS", "xmlns:xml", "xmlnsx", "xmlns.a", "p:xmlns:q", "xmlx:a", "xm:l",
     ];
     let decls = ["", " xmlns:\u{e9}='urn:e'", " xmlns:p='urn:p' xmlns:a='urn:a' xmlns:\u{4e2d}='urn:z' xmlns:a\u{e9}='urn:ae'", " xmlns:XML='urn:upper' xmlns:Xml='urn:mixed'"];
     for nm in names {
@@ -308,6 +310,36 @@ fn g_lexedge(_rng: &mut Rng, _n: usize) -> Vec<Case> {
         out.push(case(false, d.to_string()));
         out.push(case(true, format!("<!DOCTYPE r [<?pi?>]>{}", d)));
     }
+    // supplementary-plane characters written literally (4 UTF-8 bytes): in every construct, before an
+    // error on the same line, at the end of a line
+    for d in [
+        "<a>\u{1F600}</a>", "<a>\u{1F600}&x;</a>", "<a>x\u{10000}\u{1D11E}y<</a>", "<\u{10000}a/>", "<a \u{10400}='\u{1F600}' b=1/>", "<a b='\u{1F600}'>\u{1F600}\n\u{1F600}<</a>",
+        "<!--\u{1F600}--><a/><?p \u{1F600}?>", "<a><![CDATA[\u{1F600}]]>\u{10FFFF}</a>", "<a>\u{1F600}\u{e9}\u{20ac}</b>", "\u{1F600}<a/>", "<a/>\u{1F600}",
+        "<a b='\u{1F600}' b='2'/>", "<p:a xmlns:p='\u{1F600}'><q:b/></p:a>",
+    ] {
+        out.push(case(false, d.to_string()));
+    }
+    // decoys: the text of one construct inside another one (a comment that holds a DOCTYPE, a PI that
+    // holds an XML declaration, CDATA that holds an end tag ...), before the real thing
+    let decoys = [
+        "<!DOCTYPE a [<!ENTITY e 'v'>]>", "<!DOCTYPE a>", "<?xml version='1.0'?>", "</a>", "<a>", "<a", "]]>", "-->", "?>", "&e;", "&#60;", "<![CDATA[", "<!--", "<!ENTITY e 'w'>",
+        "]>", "'", "\"", "/>", "<?p",
+    ];
+    for dc in decoys {
+        let real = "<!DOCTYPE a [<!ENTITY e 'vvvvvvvvvvvvvvvvvvvvvvvvvvvvvvvvvvvvvvvvvvvvvvvvvvvvvvvvvvvvvvvvvvvvvvvvvvvvvvvvvvvv'>]>";
+        for dtd in [false, true] {
+            out.push(case(dtd, format!("<!-- {} -->{}<a>&e;&e;&e;</a>", dc, real)));
+            out.push(case(dtd, format!("<?p {} ?>{}<a>&e;&e;&e;</a>", dc, real)));
+            out.push(case(dtd, format!("<!-- {} --><a>x</a>", dc)));
+            out.push(case(dtd, format!("<a><!-- {} -->t</a><!-- {} -->", dc, dc)));
+            out.push(case(dtd, format!("<a><?p {} ?>t</a><?q {}?>", dc, dc)));
+            out.push(case(dtd, format!("<a><![CDATA[{}]]>t</a>", dc)));
+            out.push(case(dtd, format!("<a b='{}' c=\"{}\">t</a>", dc, dc)));
+            out.push(case(dtd, format!("<a>{}</a>", dc)));
+            out.push(case(dtd, format!("<!DOCTYPE a [<!-- {} --><?p {} ?><!ENTITY e 'x'>]><a>&e;</a>", dc, dc)));
+            out.push(case(dtd, format!("<!DOCTYPE a [<!ENTITY f \"{}\"><!ENTITY e 'x'>]><a>&e;</a>", dc.replace('"', ""))));
+        }
+    }
     // byte order marks: only the first U+FEFF of the document is one; documents ending in a bare CR
     // or other line ends (text positions at and past the end)
     for d in [
@@ -338,6 +370,20 @@ fn g_limitedge(_rng: &mut Rng, _n: usize) -> Vec<Case> {
                     out.push(Case { dtd, limit: l as u32, text: d.clone().into_bytes() });
                 }
             }
+        }
+    }
+    // `<` characters that are no markup (in CDATA, comments, PIs; declarations of an unused DTD): every
+    // limit from 0 to the number of `<`
+    for (dtd, d) in [
+        (false, "<a><![CDATA[if (a<b && b<c && c<d && d<e) {}]]></a>".to_string()),
+        (false, "<a><!-- <<<<<<<< --><?p <<<<<<?>x</a>".to_string()),
+        (false, "<!-- < < < < < < --><a/><?p <<<<?>".to_string()),
+        (true, "<!DOCTYPE a [<!ENTITY a 'x'><!ENTITY b 'y'><!ENTITY c 'z'><!ELEMENT a ANY><!ATTLIST a b CDATA #IMPLIED><!-- < -->]><a/>".to_string()),
+        (true, "<!DOCTYPE a [<!ENTITY e '<![CDATA[<<<<]]>'>]><a>&e;</a>".to_string()),
+    ] {
+        let lt = d.matches('<').count();
+        for l in 0..=(lt + 1) {
+            out.push(Case { dtd, limit: l as u32, text: d.clone().into_bytes() });
         }
     }
     // entity expansion that yields more nodes than the input has bytes: limits around the input length
@@ -613,6 +659,37 @@ fn g_sizes(level: usize, big: bool) -> Vec<Case> {
     out
 }
 
+/// Every ordered pair (and some triples) of small content constructs standing next to each other in
+/// one element, with a DTD that declares text, empty, markup and nested entities and with namespace
+/// declarations in scope: what one construct leaves behind (a pending CR, an open run of text, the
+/// entity depth, the namespace scope, the last tag name, a cache) must not leak into the next one.
+/// Each pair also with a mismatched end tag at the end (C14: the names in the error are the source's).
+fn g_pairs(_rng: &mut Rng, n: usize) -> Vec<Case> {
+    let items = [
+        "x", "\r", "\r\n", "&#13;", "&#10;", "&amp;", "&#x1F600;", "<![CDATA[y\r]]>", "<![CDATA[]]>", "<!--c-->", "<?p v?>", "<b/>", "<b>t</b>",
+        "<p:c xmlns:p='u2' p:k='1' q:k='1'/>", "<p:d p:k='2'/>", "<q:d xmlns:q='u1'/>", "&e;", "&z;", "&m;", "&n;", "&o;", "<b k='a&#9;b' l='a b'/>",
+        "<b k='&e;' l='v'/>", "<b k='&z;&#13;'/>", "<b k='a&#x20;b' l='a\tb'/>", "<b xmlns='d'><c/></b>", "<b xmlns=''/>", " ", "]]", ">",
+        "<n:a xmlns:n='u3'><b/></n:a>", "<b k='&lt;'/>",
+        // a prefix declared only inside one construct and used (undeclared) in the next one
+        "<s:c xmlns:s='u5' s:k='1'><s:i/></s:c>", "<s:d/>", "<b s:k='1'/>",
+    ];
+    let dtd = "<!DOCTYPE r [<!ENTITY e 'ee'><!ENTITY z ''><!ENTITY m '<f k=\"&#10;&lt;\" p:y=\"1\">&#13;</f>'><!ENTITY n '[&e;&z;]'><!ENTITY o '<g xmlns:p=\"u9\"><p:h/></g>'>]>";
+    let mut out = Vec::new();
+    for a in items {
+        for b in items {
+            out.push(case(true, format!("{}<r xmlns:p='u1' xmlns:q='u1'>{}{}</r>", dtd, a, b)));
+            if n >= 2 {
+                out.push(case(true, format!("{}<r xmlns:p='u1' xmlns:q='u1'>{}{}{}</r>", dtd, a, b, a)));
+                out.push(case(true, format!("{}<n:r xmlns:n='u0' xmlns:p='u1' xmlns:q='u1'>{}{}</x>", dtd, a, b)));
+            }
+        }
+        out.push(case(true, format!("{}<n:r xmlns:n='u0' xmlns:p='u1' xmlns:q='u1'>{}</x>", dtd, a)));
+        out.push(case(true, format!("{}<n:r xmlns:n='u0' xmlns:p='u1' xmlns:q='u1'>{}</m:r>", dtd, a)));
+        out.push(case(true, format!("{}<n:r xmlns:n='u0' xmlns:p='u1' xmlns:q='u1'><p:s>{}</p:s>{}</n:s>", dtd, a, a)));
+    }
+    out
+}
+
 /// Text and attribute values as piece sequences in every order and adjacency (C04 / C05),
 /// at first / middle / last position among siblings.
 fn g_pieces2(_rng: &mut Rng, n: usize, attr: bool) -> Vec<Case> {
@@ -682,6 +759,7 @@ pub fn gen(name: &str, rng: &mut Rng, n: usize, _args: &[String]) -> Vec<Case> {
         "entnames" => g_entnames(rng, n),
         "longattr" => g_longattr(rng, n),
         "manyents" => g_manyents(rng, n),
+        "pairs" => g_pairs(rng, n),
         "sizes" => g_sizes(n, false),
         "sizes-big" => g_sizes(3, true),
         "blocktext" => g_blocktext(rng, n),
@@ -1731,6 +1809,8 @@ fn cmd_threads(seed: u64) {
         };
         let pos_expect: Vec<roxmltree::TextPos> = (0..=t.len() + 1).map(|p| if t.len() > 60_000 { pos_ref(p - p % stride) } else { doc.text_pos_at(p - p % stride) }).collect();
         let bad = std::sync::atomic::AtomicUsize::new(0);
+        let t_len = t.len();
+        let end_pos = if t_len > 60_000 { pos_ref(t_len) } else { doc.text_pos_at(t_len) };
         std::thread::scope(|s| {
             for th in 0..16u64 {
                 let ids = &ids;
@@ -1747,6 +1827,11 @@ fn cmd_threads(seed: u64) {
                         crate::dump::api_node(&mut o, doc, doc.get_node(NodeId::new(ids[k])).unwrap());
                         if o != expect[k] || root.id().get() != 0 {
                             bad.fetch_add(1, std::sync::atomic::Ordering::Relaxed);
+                        }
+                        for q in [t_len + 1, t_len + 5, t_len + 9999, usize::MAX, t_len + 2, t_len] {
+                            if doc.text_pos_at(q) != end_pos {
+                                bad.fetch_add(1, std::sync::atomic::Ordering::Relaxed);
+                            }
                         }
                         for _ in 0..40 {
                             let p = rng.below(pos_expect.len());
